@@ -1,1 +1,5 @@
-import HawkModel.Arr
+import HawkModel.Props.C05
+import HawkModel.Props.C16
+import HawkModel.Props.C16Htb
+import HawkModel.Props.C19
+import HawkModel.Props.C20
